@@ -258,3 +258,25 @@ func keyOf(v ssa.Value) string {
 	}
 	return ""
 }
+
+// isErrReturn: the return's error operand is a freshly built error, or a value
+// that every path to the return has tested to be non-nil.
+func isErrReturn(rt *ssa.Return) bool {
+	if engine.ReturnsFreshError(rt) {
+		return true
+	}
+	f := rt.Parent()
+	idx := engine.ErrorResultIndex(f)
+	if idx < 0 {
+		return false
+	}
+	v := rt.Results[idx]
+	if isNilConst(v) {
+		return false
+	}
+	w := unguarded(f, nil, rt, func(l Lit) bool {
+		x, isNil, ok := l.NilTest()
+		return ok && !isNil && engine.SameValue(x, v)
+	})
+	return w == nil
+}
